@@ -249,6 +249,22 @@ def index_expressions(n):
 				big = np.zeros(2 * m, dtype='i8')
 				big[::2] = t
 				yield big[::2], 'ints'
+	# the ends of every integer type's range (values that alias small negative or in-range indices once cast to another width)
+	for dt in ('i1', 'i2', 'i4', 'i8', 'u1', 'u2', 'u4', 'u8'):
+		info = np.iinfo(dt)
+		ext = sorted({info.max - j for j in range(0, n + 2)} | {info.min + j for j in range(0, n + 2) if info.min < 0} | ({1 << 63, (1 << 63) - 1, (1 << 63) + 1} if dt == 'u8' else set())
+		             | ({1 << 32, (1 << 32) - 1, -(1 << 32), (1 << 31), -(1 << 31) - 1} if dt == 'i8' else set()) | ({(1 << 32) - 1, 1 << 31} if dt == 'u4' else set()))
+		for v in ext:
+			yield np.dtype(dt).type(v), 'int'
+			yield np.array([v], dtype=dt), 'ints'
+			if n:
+				yield np.array([0, v], dtype=dt), 'ints'
+				yield np.array([v, n - 1, 0], dtype=dt), 'ints'
+	for v in (2 ** 64 - 1, 2 ** 64, 2 ** 63, -2 ** 63, -2 ** 63 - 1, 2 ** 64 - n, 2 ** 32 - 1, 2 ** 100):
+		yield v, 'int'
+		yield [v], 'ints'
+		if n:
+			yield [0, v], 'ints'
 	if n >= 2:
 		for t in itertools.product(range(n), repeat=4):
 			yield list(t), 'ints'
